@@ -142,7 +142,7 @@ CHECKS.update({
  'C16': dict(
    technique='bounded CBMC checks (harness-enforced contracts) of the extracted Message::checkLevel against a token-membership specification, and of Message::hasLevel + MessageMap::find(circuit, name, levels, ...) with the name map abstracted; MessageMap::findAll (level, circuit, name, direction, time and availability filters) with the name map as an array of buckets and hasLevel used by its separately discharged contract; the authentication statement and the findAll call of the /data branch of MainLoop::executeGet as function fragments (R16) with UserList as stub',
    level='other',
-   text='BOUNDED, partial: Message::checkLevel is checked equal to exact token membership (empty level free, list "*" grants all, no prefix/suffix/infix match) for all level and list strings up to 9 characters over the full character set; MessageMap::find by circuit and name hands out a message only if the client list grants its level (hasLevel -> checkLevel), finds a granted message, and falls back to the name-only key only when no circuit was given (strings up to 5 characters). That the command handlers (mainloop.cpp executeRead/executeWrite hex form and poll priority, mqtthandler.cpp, datahandler.cpp), findAll and UserList pass the right user levels is NOT decided. MessageMap::findAll (behind find, listen, HTTP /data, MQTT and KNX listings and newly defined messages) lists a definition exactly once iff all its filters admit it, never lists one whose level the client is not granted, independent of what else is stored under the same name (three keys with up to two definitions each). HTTP GET /data: the authentication statement and the listing call of MainLoop::executeGet (two fragments): a request naming a user or giving a secret goes on only after checkSecret succeeded for exactly that user and secret, and the listing uses the levels of that user (the default levels without user), so failed or missing authentication grants only the default levels.',
+   text='BOUNDED, partial: Message::checkLevel is checked equal to exact token membership (empty level free, list "*" grants all, no prefix/suffix/infix match) for all level and list strings up to 9 characters over the full character set; MessageMap::find by circuit and name hands out a message only if the client list grants its level (hasLevel -> checkLevel), finds a granted message, and falls back to the name-only key only when no circuit was given (strings up to 5 characters). That the command handlers (mainloop.cpp executeRead/executeWrite hex form and poll priority, mqtthandler.cpp, datahandler.cpp), findAll and UserList pass the right user levels is NOT decided. MessageMap::findAll (behind find, listen, HTTP /data, MQTT and KNX listings and newly defined messages) lists a definition exactly once iff all its filters admit it, never lists one whose level the client is not granted, independent of what else is stored under the same name (three keys with up to two definitions each). HTTP GET /data: the authentication statement and the listing call of MainLoop::executeGet (two fragments): a request naming a user or giving a secret goes on only after checkSecret succeeded for exactly that user and secret, and the listing uses the levels of that user (the default levels without user), so failed or missing authentication grants only the default levels. TCP auth command (MainLoop::executeAuth, whole function): the user of the connection changes only after checkSecret succeeded for the given name and secret, and then to exactly that name.',
    note=TB + 'bounded string model (capacity 9 / 5, unwinding assertions); the name map lookup (tolower, key concatenation, std::map::find, getFirstAvailable) is an environment stub returning an arbitrary message or none per key; in findAll lower-casing and the circuit/name comparisons are opaque per-definition verdicts; of the call sites only the HTTP /data one is extracted (as two fragments; the statements between them and the guard around the listing are not); the TCP command handlers, MQTT and KNX handlers and UserList itself (map lookups, ACL file parsing) are outside the extraction reach.',
    ref='DESIGN.md I.2 (C16)'),
  'C18': dict(
